@@ -119,7 +119,7 @@ CLAIMS.update({
 CLAIMS.update({
     "C07": dict(
         technique="dimensional analysis of the block updates by structural abstract interpretation of the whole driver (data tensor and initialiser output as symbols; first store per store site observed) + guard-dominance lint for line-search acceptance",
-        text="PARTIAL claim; decides two necessary conditions, not descent itself. (UPDATE-DEGREE) the value each least-squares block update stores into the model -- CP-ALS, HALS non-negative CP (HALS and unconstrained branch), TR-ALS (lstsq and normal equations), the CP and Tucker regressors' ALS (ridge 0), CMTF's matrix-side factor, HOOI -- has the homogeneity degree of the exact block minimiser (+1 in the data, -1 in every other block and in the weights): with any other degree, rescaling the other blocks makes the residual after the update exceed the residual before it, so the sweep increases the objective for some input. Catches weights/factors missing from or doubled in the Gram matrix or the right-hand side, Gram products over the wrong set of modes, a sub-chain one core short. (ACCEPT-GUARDED) a line-search extrapolation replaces the iterate (CP-ALS) or is returned (PARAFAC2) only in the true branch of `error(extrapolated) < recorded error`. NOT decided: monotone descent, PARAFAC2's projection step, CMTF's coupled factor, the HALS inner solver's arithmetic (see C13), conditioning.",
+        text="PARTIAL claim; decides two necessary conditions, not descent itself. (UPDATE-DEGREE) the value each least-squares block update stores into the model -- CP-ALS, HALS non-negative CP (HALS and unconstrained branch), TR-ALS (lstsq and normal equations), the CP and Tucker regressors' ALS (ridge 0), CMTF's matrix-side factor, HOOI -- has the homogeneity degree of the exact block minimiser (+1 in the data, -1 in every other block and in the weights): with any other degree, rescaling the other blocks makes the residual after the update exceed the residual before it, so the sweep increases the objective for some input. Catches weights/factors missing from or doubled in the Gram matrix or the right-hand side, Gram products over the wrong set of modes, a sub-chain one core short. (ACCEPT-GUARDED) a line-search extrapolation replaces the iterate (CP-ALS) or is returned (PARAFAC2) only in the true branch of `error(extrapolated) < recorded error`; (BLOCK-INDEPENDENT) the HALS NNLS row update is an exact coordinate minimisation: over an affine-form abstract domain (value = alpha*old_row + beta with rational-function coefficients) the stored row does not depend on the old row after cancellation, with and without sparsity / ridge coefficients. NOT decided: monotone descent, PARAFAC2's projection step, CMTF's coupled factor, conditioning.",
         note="Trusted: degree specification of solve/lstsq (b - A), of the NNLS solvers (UtM - UtU), of svd (scale-free vectors) and of the tenalg primitives (C02); drivers analysed with ridge 0, no mask, no sparsity.",
         design="DESIGN.md §17",
     ),
@@ -128,7 +128,7 @@ CLAIMS.update({
 CLAIMS.update({
     "C13": dict(
         technique="dimensional (unit) analysis of the solver bodies by structural abstract interpretation: UtM, UtU, the l1 and ridge coefficients as units; every sum / difference / element store type-checked, every return compared with the unit of the exact solution",
-        text="PARTIAL claim; decides unit consistency only. (UNIT-CONSISTENT) in hals_nnls (cold and warm start, with and without l1 / ridge coefficients), fista (cold / warm, penalised), active_set_nnls (cold / warm) and admm (unconstrained branch and constrained iteration) no sum, difference or element store combines quantities of different units, and every returned solution has the unit UtM / UtU of the exact (penalised) least-squares solution. The solution of the NNLS problem is homogeneous of degree +1 in UtM and -1 in UtU; an update that mixes units is not invariant under rescaling the design, so its fixed point cannot be the KKT point for every input. Catches a Gram entry missing from the coordinate update, squared denominators, coefficients added on the wrong side, a step without / with a non-inverted Lipschitz constant, residuals without the Gram matrix. NOT decided: KKT optimality of the numbers, convergence, active-set bookkeeping.",
+        text="PARTIAL claim; decides unit consistency only. (UNIT-CONSISTENT) in hals_nnls (cold and warm start, with and without l1 / ridge coefficients), fista (cold / warm, penalised), active_set_nnls (cold / warm) and admm (unconstrained branch and constrained iteration) no sum, difference or element store combines quantities of different units, and every returned solution has the unit UtM / UtU of the exact (penalised) least-squares solution. The solution of the NNLS problem is homogeneous of degree +1 in UtM and -1 in UtU; an update that mixes units is not invariant under rescaling the design, so its fixed point cannot be the KKT point for every input. Catches a Gram entry missing from the coordinate update, squared denominators, coefficients added on the wrong side, a step without / with a non-inverted Lipschitz constant, residuals without the Gram matrix. (BLOCK-INDEPENDENT) the HALS row update is the exact minimiser over its row: in an affine-form abstract domain the coefficient of the old row in the stored row is 0 after cancellation for every combination of the sparsity / ridge coefficients (the 'incremental' form of the function's own docstring keeps 2*ridge/(UtU[k,k]+2*ridge) of the old row: a damped step whose fixed point is not the KKT point of the ridge problem). NOT decided: KKT optimality of the numbers, convergence, active-set bookkeeping.",
         note="Trusted: clamp at epsilon evaluated as identity; proximal_operator unit-preserving; solve / svd degree specification.",
         design="DESIGN.md §17",
     ),
